@@ -84,6 +84,13 @@ CLAIMED.update({
              'queries and data and compared; CLI exit status / stdout / stderr discipline on success, warnings and four error classes.',
         note='Partial: pandas, sqlite3, argparse and the process boundary are third-party adapters assumed faithful in the theorem and tied only dynamically.',
         ref='DESIGN.md section 7, C13'),
+    'C16': dict(
+        text='C16_interleaving_independent (for EVERY schedule two machines with disjoint state end where each ends alone), qSteps_eq_mainLoop (the small-step machine cut at every record pull computes run), '
+             'C16_interleaved_queries_equal_solo, C16_history_independent, and the GENERATED obligation C16_no_shared_writes re-derived from rbql_engine.py on every run by an ast-based translator (shared-state footprint of everything reachable '
+             'from query(), code templates included). Real code tied by a cooperative scheduler running ALL interleavings of the get_record/write/finish steps of pairs of queries and ALL short query sequences against fresh-interpreter runs.',
+        note='Partial: the theorem is about disjointly-typed state machines; preemptive thread switches inside a step and C-level races are not expressible. If the generated obligation breaks and no interleaving/history differs the check reports no-failing-input-found.',
+        technique='Lean 4 theorems + source-derived (regenerated) proof obligation + exhaustive schedule enumeration under a cooperative scheduler',
+        ref='DESIGN.md section 7, C16'),
     'C10': dict(
         text='Line level: C10_line_roundtrip_quoted (every good delimiter, single- or multi-character; no field condition for one-character delimiters), simple and monocolumn round trips; '
              'file level: C10_file_lines_roundtrip for LF/CRLF/CR; lossy output warns (C10_lossy_simple_warns, C10_none_sets_flag); C10_overlap_counterexample shows why multi-character '
